@@ -40,7 +40,16 @@ class Transport:
         import json as _j
         text = _j.dumps(json)          # must be serialisable exactly as the HTTP client would do
         path = url.rsplit("/", 1)[-1]
-        return Resp(self.stub.handle(path, text))
+        reply = self.stub.handle(path, text)
+        if path == "schedule":
+            # environment answer: the reply arrives (default), or it is lost AFTER the external scheduler has
+            # processed the request (read timeout / connection reset) - the caller sees a transport error
+            k = self.stub.ch.choose(3, "transport")
+            if k:
+                import requests as _rq
+                self.stub.lost += 1
+                raise (_rq.exceptions.Timeout if k == 1 else _rq.exceptions.ConnectionError)("reply lost (injected by the harness)")
+        return Resp(reply)
 
 
 class Stub:
@@ -53,6 +62,7 @@ class Stub:
         self.checker = checker
         self.calls = []
         self.init_seen = 0
+        self.lost = 0
 
     def handle(self, path, text):
         if path == "init":
@@ -161,6 +171,10 @@ class Checker:
         w = self.rec.w
         rd = self.rec.cur_round
         tick = w.tick
+        if self.last_reply is not None:
+            self.flag("reply-discarded", f"tick {tick}: another /schedule call although the decisions of the previous reply {self.last_reply} were never executed")
+        if self.call_ticks and self.call_ticks[-1][0] == tick:
+            self.flag("called-twice-in-one-tick", f"tick {tick}: the same state (results, new pipelines) was delivered twice")
         self.call_ticks.append((tick, bool(rd.new), bool(rd.results)))
         for t in TAINTS:
             if t in text:
@@ -313,6 +327,8 @@ def run_one(sc, ch, collect=None):
     stub = None
     try:
         class _Lazy:
+            exceptions = real_requests.exceptions
+
             def post(self_, url, json=None, **kw):
                 nonlocal stub
                 if stub is None:
@@ -473,7 +489,7 @@ def main(tier, seed):
     q = tier == "quick"
     bound = 2 if q else 3
     rep.cov["rule"] = (f"F-R: the real run_simulator(scheduler_algo='rest') with requests.post bound to an in-process transport (JSON text both ways) and an external-scheduler stub whose every /schedule reply is a choice point; "
-                       f"menu computed from the payload alone (default: first ready operator -> first pool with room; none; small/whole-free sizes; all assignable operators of a pipeline; two assignments; suspend a listed running container); "
+                       f"menu computed from the payload alone (after every reply a second choice point: delivered (default) / lost after the external scheduler processed the request, seen by the caller as read timeout or as connection error; reply default: first ready operator -> first pool with room; none; small/whole-free sizes; all assignable operators of a pipeline; two assignments; suspend a listed running container); "
                        f"ALL reply sequences with <={bound} non-default replies over <=10 calls x poll interval 0,0.5,1,2.5 x tick rate 1,2,10 x pools x container mode; every request compared with ground truth at the instant of the call; "
                        "segment figures tainted (…734561/2/3) must not occur in any request text; timing rule; end statistics = in-process replay of the recorded decisions; one trace per scenario repeated over a real loop-back http.server. "
                        "states = distinct reference-model states; non-trivial = distinct (scenario, decision/outcome counters) classes")
